@@ -232,10 +232,11 @@ Fixpoint pairwise {A} (f : A -> A -> bool) (l : list A) : bool :=
 Definition mount_tree (st : tstate) (i : nat) : node := tree_at (t_mounts st) i.
 
 (* calls MountFS hands to one filesystem with the delegated path and whose answer it returns as it is
-   (getinfo renames the info of a mount point: mount_getinfo) *)
+   (getinfo renames the info of a mount point: mount_getinfo; scandir of a default-tree directory reports
+   the mount points in it as getinfo does: mount_scandir) *)
 Definition mount_direct (o : op) : option str :=
   match o with
-  | OListdir p | OScandir p | OMakedir p _ | OWritebytes p _ | OReadbytes p | ORemove p
+  | OListdir p | OMakedir p _ | OWritebytes p _ | OReadbytes p | ORemove p
   | OSetinfo p _ | OIsdir p | OIsfile p | OGetsize p | OGettype p => Some p
   | OOpenwrite p m _ | OOpenread p m => if mode_valid_bin m then Some p else None
   | _ => None
